@@ -215,6 +215,11 @@ func C03(x *Ctx, r *core.Result) {
 	e := r.Rule("R03e", "offsets: re-basing rule R08a for every sub-slice call")
 	x.rebaseRule(r, e)
 	r.CheckFloor(e, 10)
+	wr := r.Rule("R03w", "the package-level ReadValue / ReadObject / ReadArray call the method of the same name on a fresh zero ValueReader with their own data and return its results unchanged")
+	for _, n := range []string{"ReadValue", "ReadObject", "ReadArray"} {
+		x.freshReaderWrapper(r, wr, n)
+	}
+	r.CheckFloor(wr, 3)
 	f := r.Rule("R03f", "scratch integrity: the key and string scratch buffers are owned by one reader each, used only truncated to length 0 and copied out by string(...) — so the unescaped key a member is stored under cannot be overwritten while its value is being decoded (R16d)")
 	x.scratchRules(r, f)
 	r.NotDecided = append(r.NotDecided,
@@ -841,4 +846,60 @@ func (x *Ctx) blockReturnsNonNilError(b *ssa.BasicBlock) bool {
 		}
 	}
 	return last != nil && x.knownNonNilError(last)
+}
+
+// freshReaderWrapper: `func ReadX(data) (…) { h := ValueReader{}; return h.ReadX(data) }`.
+func (x *Ctx) freshReaderWrapper(r *core.Result, rs *core.RuleStat, name string) {
+	fn := x.Func(name)
+	if fn == nil {
+		r.Undecided(rs, name, "-", "function not found")
+		return
+	}
+	rs.Instances++
+	var call *ssa.Call
+	var ret *ssa.Return
+	var alloc *ssa.Alloc
+	bad := ""
+	for _, b := range fn.Blocks {
+		for _, ins := range b.Instrs {
+			switch t := ins.(type) {
+			case *ssa.Call:
+				if call != nil {
+					bad = "more than one call"
+				}
+				call = t
+			case *ssa.Return:
+				ret = t
+			case *ssa.Alloc:
+				alloc = t
+			case *ssa.Store:
+				// zero-initialising store of the fresh reader is fine; anything else is not
+				if alloc == nil || t.Addr != ssa.Value(alloc) {
+					bad = "the wrapper writes memory other than its fresh reader"
+				}
+			}
+		}
+	}
+	switch {
+	case bad != "":
+	case call == nil || ret == nil || alloc == nil || call.Call.StaticCallee() == nil:
+		bad = "wrapper is not `h := ValueReader{}; return h." + name + "(data)`"
+	case call.Call.StaticCallee().Name() != name || call.Call.StaticCallee().Signature.Recv() == nil:
+		bad = "wrapper calls " + call.Call.StaticCallee().Name() + ", not the method " + name
+	case len(call.Call.Args) != 2 || call.Call.Args[0] != ssa.Value(alloc) || call.Call.Args[1] != ssa.Value(fn.Params[0]):
+		bad = "the method is not called on the fresh reader with the wrapper's own data"
+	default:
+		for i, res := range ret.Results {
+			ex, ok := res.(*ssa.Extract)
+			if !ok || ex.Tuple != ssa.Value(call) || ex.Index != i {
+				bad = fmt.Sprintf("result %d is not the method's result %d", i, i)
+			}
+		}
+	}
+	if bad != "" {
+		r.Fail(rs, name+":wrapper", x.W.Pos(fn.Pos()), bad)
+	} else {
+		rs.OK(1)
+		rs.Sample(name + ": fresh ValueReader, method of the same name, results unchanged")
+	}
 }
